@@ -38,6 +38,13 @@ class Check(ParCheck):
             for shared in (False, True):
                 nm = f"{name}_{'s' if shared else 'c'}"
                 out.append((nm, par_scenario(nm, 'strict', tree, threads, shared)))
+        # partial mocks on a method that has a real implementation: an exhausted single-use value still panics, it does not
+        # fall through to the real function
+        once_un0 = term(0, 'some', Pat(mask=255, chain=[seg('ret7', '-')]))
+        once_ord0 = term(0, 'next', Pat(mask=255, chain=[seg('ret9', 'once')]))
+        for name, tree, threads in [('oncepart2', once_un0, [[(0, 0)], [(0, 0)]]), ('oncepart1x2', once_un0, [[(0, 0), (0, 0)]]), ('oncepartord', once_ord0, [[(0, 0)], [(0, 0)]])]:
+            nm = f"{name}_c"
+            out.append((nm, par_scenario(nm, 'partial', tree, threads, False)))
         return out
 
     def extra(self, rep, tier, seed):
@@ -128,6 +135,10 @@ class Check(ParCheck):
             if n7 > 1:
                 return f"single-use value handed to {n7} callers"
         flat = [o for t in r['outs'].split('|') for o in t.split(',') if o]
+        if name.startswith(('oncepart', 'once2_', 'once3_', 'once4_', 'once2x2', 'once3x2')):
+            others = [o for o in flat if o not in ('ret:7', 'ret:9')]
+            if any(not o.startswith('err:CannotReturnValueMoreThanOnce') for o in others) or len(others) != len(flat) - 1:
+                return f"a single-use value must go to exactly one request and every other request must panic (CannotReturnValueMoreThanOnce): {flat}"
         if name.startswith('multial') and any(o != 'ret:7' for o in flat):
             return f"a value configured for repeated use (returns(v).at_least_times(1)) was not handed to every caller: {flat}"
         if name.startswith('multieach') and sorted(flat) != sorted(['ret:7'] + ['ret:8'] * (len(flat) - 1)):
